@@ -1,2 +1,12 @@
+-- root of the `PsVerif` library: models, helper lemmas, property theorems
 import PsVerif.Model.Bookkeeping
+import PsVerif.Model.Gram
+import PsVerif.Model.NormCalc
+import PsVerif.Model.Proto
+import PsVerif.Lemmas.Argmax
+import PsVerif.Lemmas.Greedy
+import PsVerif.Lemmas.GramAlg
+import PsVerif.Lemmas.SqrtOrder
 import PsVerif.Props.C01
+import PsVerif.Props.C03
+import PsVerif.Props.C04
